@@ -11,6 +11,7 @@
      PulseRefuted.v  reentrant_recalc_refuted (finding F16)
      PulseFuel.v     fuel adequacy (apply_cop_fuel, get_aux_fuel, pulse_aux_fuel, step_total)
      PulseDepth.v    small_rank: the depth is a rank bounded by the number of node ids in use
-     PulseFuelAny.v  fuel adequacy of the pulse sweep for arbitrary Pulse() oracles (step_total_any) *)
+     PulseFuelAny.v  fuel adequacy of the pulse sweep for arbitrary Pulse() oracles (step_total_any, run_total)
+     PulseSafe.v     GetPulseTime() oracles performing operations off the recalculation stack (reach_inv_safe, recalc_min_safe) *)
 From Muscle Require Export Pulse.PulseModel Pulse.PulseInv Pulse.PulseForest Pulse.PulseResched Pulse.PulseOps
-     Pulse.PulseSweep Pulse.PulseReach Pulse.PulseMin Pulse.PulseExact Pulse.PulseAsk Pulse.PulseRefuted Pulse.PulseFuel Pulse.PulseDepth Pulse.PulseFuelAny.
+     Pulse.PulseSweep Pulse.PulseReach Pulse.PulseMin Pulse.PulseExact Pulse.PulseAsk Pulse.PulseRefuted Pulse.PulseFuel Pulse.PulseDepth Pulse.PulseFuelAny Pulse.PulseSafe.
